@@ -225,21 +225,70 @@ def check_request_ids(rep, rp, app):
               'the request object that receives the id is not freshly built from this call\'s environ', sfi.mod, bs if bs is not None else sfi.node)
 
 
+def _env_keys(fi, call, callee):
+    """Names the generated code is executed with: keys of the ``env`` mapping handed to compile_code (a dict display or
+    ``dict(k=v)``, possibly named by a single-assignment local) -- None when not resolvable."""
+    from ..astutil import argn, assigned_value
+    ps = callee.params()
+    e = argn(call, 'env', ps.index('env') if 'env' in ps else None)
+    if isinstance(e, ast.Name) and e.id not in fi.params():
+        vals = assigned_value(fi.node, e.id)
+        if len(vals) != 1 or vals[0][2] is not None:
+            return None
+        if any(ef.root == e.id for ef in effects.effects_in(fi.node)):
+            return None
+        e = vals[0][1]
+    if isinstance(e, ast.Dict) and all(isinstance(k, ast.Constant) and isinstance(k.value, str) for k in e.keys):
+        return sorted(k.value for k in e.keys)
+    if isinstance(e, ast.Call) and isinstance(e.func, ast.Name) and e.func.id == 'dict' and not e.args and all(k.arg for k in e.keywords):
+        return sorted(k.arg for k in e.keywords)
+    return None
+
+
 def check_generated_code(rep):
+    from ..astutil import argn
     repo = rep.repo
+    sinter = repo.mod('clastic.sinter')
+    compile_code = sinter.func('compile_code')
+    cps = compile_code.params()
     # generated code
     fi, te, parts, stop, main = chain.analyse_level_template(repo)
     r, text = chain._render_level(repo, fi, parts, 0)
+    # the environment the chain text is executed in: the compile_code call of the function that builds the text
+    lvl_env = None
+    for f2 in sinter.functions.values():
+        calls = [c for c in walk_body(f2.node) if isinstance(c, ast.Call)]
+        if any(call_name(c) == fi.name for c in calls) and f2 is not fi:
+            for c in calls:
+                if call_name(c) == 'compile_code':
+                    lvl_env = _env_keys(f2, c, compile_code)
     core = repo.mod('clastic.middleware.core')
     ci = core.func('_create_request_inner')
-    cc = [c for c in walk_body(ci.node) if isinstance(c, ast.Call) and call_name(c) == 'compile_code'][0]
-    parts2 = codegen.TemplateEval(repo, ci).ev(cc.args[0], cc.lineno)
-    text2 = codegen.render(parts2).text
-    for label, t, mod_, node in (('chain level', text, fi.mod, main), ('request core', text2, core, cc)):
+    ccs = [c for c in walk_body(ci.node) if isinstance(c, ast.Call) and call_name(c) == 'compile_code']
+    if len(ccs) != 1:
+        raise AnalysisError('_create_request_inner: expected one compile_code call, found %d' % len(ccs))
+    cc = ccs[0]
+    src = argn(cc, cps[0], 0)
+    if src is None:
+        raise AnalysisError('_create_request_inner: the code argument of compile_code not found')
+    parts2 = codegen.TemplateEval(repo, ci).ev(src, cc.lineno)
+    r2 = codegen.render(parts2)
+    text2 = r2.text
+    core_env = _env_keys(ci, cc, compile_code)
+    for label, t, rr, mod_, node, env in (('chain level', text, r, fi.mod, main, lvl_env), ('request core', text2, r2, core, cc, core_env)):
+        opaque = [h for h in rr.holes.values() if isinstance(h, codegen.Sym) and h.kind == 'expr']
+        if opaque:
+            raise AnalysisError('generated %s: part of the text is built in a way the template evaluator cannot follow (%s)'
+                                % (label, short(opaque[0].expr)))
         try:
             tree = ast.parse(textwrap.dedent(t))
         except SyntaxError as e:
             raise AnalysisError('generated %s does not parse: %s' % (label, e))
+        # the sample must be what the rule is about: a function definition that calls out; otherwise the template
+        # was not understood (which is not a verdict on the generated code)
+        defs = [n for n in tree.body if isinstance(n, ast.FunctionDef)]
+        if len(defs) != 1 or len(tree.body) != 1 or not any(isinstance(n, ast.Return) for n in ast.walk(defs[0])):
+            raise AnalysisError('generated %s: the rendered sample is not a single function definition (template not understood)' % label)
         bad = []
         for n in ast.walk(tree):
             if isinstance(n, (ast.Global, ast.Nonlocal)):
@@ -259,10 +308,10 @@ def check_generated_code(rep):
             set(f_.name for f_ in ast.walk(tree) if isinstance(f_, ast.FunctionDef)) | \
             set(n.id for n in ast.walk(tree) if isinstance(n, ast.Name) and isinstance(n.ctx, ast.Store))
         closed = sorted(x for x in free - bound if not x.startswith('__H') and x not in ('True', 'False', 'None', 'isinstance'))
-        want = ['funcs'] if label == 'chain level' else ['BaseResponse', 'endpoint', 'render']
+        # the names it may read are exactly the per-chain objects it is executed with (fixed at construction)
+        want = env if env is not None else (['funcs'] if label == 'chain level' else ['BaseResponse', 'endpoint', 'render'])
         rep.check('R12.a', 'generated::%s closure' % label, closed == want, 'closes over %s only' % want if closed == want else
                   'generated %s reads free names %s (expected %s)' % (label, closed, want), mod_, node)
-
 
 
 def check_route_immutable(rep, route):
